@@ -39,7 +39,44 @@ theorem Pack_sizeClamp_translated (size : Nat) :
 
 /-- the 14-bit guard `newPtr <= int(^uint16(0)>>2)` of `Name.pack` is the model's `pos ≤ ptrLimit` -/
 theorem ptrFits_translated (pos : Nat) : decide (pos ≤ ptrLimit) = Translated.c02_ptrFits pos := by
+  have hc : ((65536 - 1 - (0 % 65536)) >>> 2) = 16383 := by decide
   unfold Translated.c02_ptrFits ptrLimit
-  rfl
+  by_cases h : pos ≤ 16383 <;> simp [hc, h] <;> omega
+
+/-! ### `Question.Len`, `ResourceHdr.packLen` and the per-type `packLen` (the lengths `Msg.Len` and the size limit of
+    `Msg.Pack` add up) -/
+
+theorem Id_pure_nat (x : Nat) : (pure x : Id Nat) = x := rfl
+
+theorem Question_Len_eq (nameLen : Nat) : Translated.c02_Question_Len nameLen = nameLen + 4 := by
+  unfold Translated.c02_Question_Len; simp [Id.run, Id_pure_nat] <;> omega
+theorem RHdr_packLen_eq (nameLen : Nat) : Translated.c02_RHdr_packLen nameLen = nameLen + 10 := by
+  unfold Translated.c02_RHdr_packLen; simp [Id.run, Id_pure_nat] <;> omega
+theorem Raw_packLen_eq (hdrLen n : Nat) :
+    Translated.c02_Raw_packLen hdrLen n = hdrLen + (if n > 65535 then 65535 else n) := by
+  unfold Translated.c02_Raw_packLen
+  by_cases h : n > 65535 <;> simp [Id.run, h, Id_pure_nat] <;> omega
+
+/-- `Question.Len` -/
+theorem Question_Len_translated (q : Question) :
+    questionLen q = Translated.c02_Question_Len (namePackLen q.name) := by
+  rw [Question_Len_eq]; rfl
+
+/-- every `packLen` of rr.go: the model's `resourcePackLen`, type by type -/
+theorem packLen_translated (name : Name) (ty cls ttl : Nat) :
+    let hdr := Translated.c02_RHdr_packLen (namePackLen name)
+    (∀ b, resourcePackLen ⟨name, ty, cls, ttl, .a b⟩ = Translated.c02_A_packLen hdr) ∧
+    (∀ b, resourcePackLen ⟨name, ty, cls, ttl, .aaaa b⟩ = Translated.c02_AAAA_packLen hdr) ∧
+    (∀ n, resourcePackLen ⟨name, ty, cls, ttl, .name n⟩ = Translated.c02_NAME_packLen hdr (namePackLen n)) ∧
+    (∀ p n, resourcePackLen ⟨name, ty, cls, ttl, .mx p n⟩ = Translated.c02_MX_packLen hdr (namePackLen n)) ∧
+    (∀ ns mb a b c d e, resourcePackLen ⟨name, ty, cls, ttl, .soa ns mb a b c d e⟩ =
+      Translated.c02_SOA_packLen hdr (namePackLen ns) (namePackLen mb)) ∧
+    (∀ p w port t, resourcePackLen ⟨name, ty, cls, ttl, .srv p w port t⟩ = Translated.c02_SRV_packLen hdr (namePackLen t)) ∧
+    (∀ d, resourcePackLen ⟨name, ty, cls, ttl, .raw d⟩ = Translated.c02_Raw_packLen hdr d.length) := by
+  simp only [RHdr_packLen_eq, Raw_packLen_eq]
+  refine ⟨?_, ?_, ?_, ?_, ?_, ?_, ?_⟩ <;> intros <;>
+    simp [resourcePackLen, rdataPackLen, Translated.c02_A_packLen, Translated.c02_AAAA_packLen,
+      Translated.c02_NAME_packLen, Translated.c02_MX_packLen, Translated.c02_SOA_packLen,
+      Translated.c02_SRV_packLen, Id.run, Id_pure_nat] <;> omega
 
 end MosVerif.Wire
